@@ -150,7 +150,7 @@ def run(ctx):
     elif replay_case:
         progs = []
     else:
-        nprog = 16 if quick else 150
+        nprog = 10 if quick else 120
         gen = []
         r2 = rng.fork(2)
         for i in range(nprog):
